@@ -40,6 +40,7 @@ func vInvoke(contract, method string, args ...any) (bool, any) { return false, n
 func vRead(contract, method string, args ...any) (bool, any)   { return false, nil }
 func vEvents(contract, name string) [][]any                { return nil }
 func vEventCount() int                                     { return 0 }
+func vEventNames() []string                                { return nil }
 func vEffects() bool                                       { return false }
 func vAdvanceTime(ms int)                                  {}
 func vAdvance(blocks int)                                  {}
@@ -516,6 +517,62 @@ func (e *Engine) vcall(fn *ssa.Function, s *St, in *ssa.Call, ip int, short stri
 			var items []Value
 			for _, n := range p.sel {
 				items = append(items, ListV{e.alloc(st.State, ArrObj{append([]Value(nil), n.n.args...)})})
+			}
+			st.env[in] = ListV{e.alloc(st.State, ArrObj{items})}
+			st.ip = ip + 1
+			next = append(next, succ{st, nil})
+		}
+		return next, nil, false
+	case "vEventNames": // "contract.Event" of every notification of the last transaction, in order (forks on guarded events)
+		if e.model != nil {
+			var items []Value
+			for _, n := range e.world.eventNames() {
+				items = append(items, constBytes(n))
+			}
+			return set(ListV{e.alloc(s.State, ArrObj{items})})
+		}
+		var evs []*notifNode
+		for n := s.notifs; n != nil; n = n.prev {
+			evs = append(evs, n)
+		}
+		type part struct {
+			cond *T
+			sel  []string
+		}
+		parts := []part{{tTrue, nil}}
+		for i := len(evs) - 1; i >= 0; i-- {
+			n := evs[i]
+			nm := e.names[n.n.contract] + "." + n.n.name
+			var np []part
+			for _, p := range parts {
+				g := n.g()
+				if g.isC() {
+					if g.b {
+						np = append(np, part{p.cond, append(append([]string(nil), p.sel...), nm)})
+					} else {
+						np = append(np, p)
+					}
+					continue
+				}
+				if c1 := And(p.cond, g); e.feasible(s.State, c1) {
+					np = append(np, part{c1, append(append([]string(nil), p.sel...), nm)})
+				}
+				if c2 := And(p.cond, Not(g)); e.feasible(s.State, c2) {
+					np = append(np, part{c2, p.sel})
+				}
+			}
+			parts = np
+		}
+		for i, p := range parts {
+			st := s
+			if i < len(parts)-1 {
+				st = &St{State: s.fork(p.cond), blk: s.blk, env: cloneEnv(s.env)}
+			} else {
+				s.State.pc = And(s.pc, p.cond)
+			}
+			var items []Value
+			for _, nm := range p.sel {
+				items = append(items, constBytes(nm))
 			}
 			st.env[in] = ListV{e.alloc(st.State, ArrObj{items})}
 			st.ip = ip + 1
